@@ -760,7 +760,7 @@ func main() {
 		run.loop.Close()
 		id++
 	}
-	for _, c := range corpus() {
+	for _, c := range corpus(f.Tier == "thorough") {
 		run := newRunner(c.cfg, c.pool)
 		for _, s := range c.steps {
 			if s.Kind == "body" {
